@@ -52,6 +52,12 @@ def configs(w):
         'errlog': b'[snoopy]\nerror_logging = yes\nmessage_format = %%{nosuch} %%{failure}\noutput = file:%s/log\n' % w.encode(),
         'garbage': bytes(range(1, 256)) * 3 + b'\n[snoopy\nmessage_format\n=\n',
         'dupoutput': b'[snoopy]\noutput = file:%s/log\noutput = stdout\noutput = devnull\n  stderr\n' % w.encode(),
+        # names that are the empty string in each of the three registries' callers
+        'emptytag': b'[snoopy]\nmessage_format = a%%{}b%%{:x}c\noutput = file:%s/log\n' % w.encode(),
+        'emptyfilter': b'[snoopy]\nfilter_chain = :x;;noop;:\noutput = file:%s/log\n' % w.encode(),
+        'emptyoutput': b'[snoopy]\noutput = :x\n',
+        'emptyoutput2': b'[snoopy]\noutput =\n',
+        'emptypathtag': b'[snoopy]\noutput = file:%s/lo%%{}g\nsyslog_ident = %%{}\n' % w.encode(),
         'filemissingdir': b'[snoopy]\noutput = file:%s/no/such/dir/log\n' % w.encode(),
     }
     return c
